@@ -12,12 +12,19 @@ def menu_fn(w):
 
 def main(tier, replay_payload=None):
     w_args = universe(tier, formats=False)
+    long_args = dict(w_args, fake_cid="long")
+    parts = {"main": (w_args, menu_fn), "long-cid": (long_args, menu_fn)}
     if replay_payload is not None:
-        return make_replayer(w_args, menu_fn)(replay_payload)
+        return make_multi_replayer(parts)(replay_payload)
     run = report.Run("C03", tier, technique="pathsym inductive step; z3 validity of binding immutability and frame")
-    run.replayer = make_replayer(w_args, menu_fn)
+    run.replayer = make_multi_replayer(parts)
     res = step.explore_steps(w_args, menu_fn)
     collect(run, res, MINE, w_args, menu_fn)
+    # the never-stored cid of the universe once more, now longer than any digest (200 characters)
+    collect(run, step.explore_steps(long_args, menu_fn), MINE, long_args, menu_fn, part="long-cid")
+    # the same identifier in two stores of one process (different algorithms): in another process the binding made in
+    # the second store is found again and still refuses a second object
+    two_stores(run, "C03", ["bound-pid-accepted-again", "bound-pid-refused-with-another-error", "call-failed"])
     run.functions = loader.function_lines(loader.load(), API_FUNCS)
     run.bounds = dict(pids=w_args["pids"], contents=[len(c) for c in w_args["contents"]],
                       cids="digests of the contents + one never-stored cid", calls=res[0][2],
